@@ -12,8 +12,8 @@ import (
 
 // scaleHistory builds a history on n = 2^k leaves (k >= 6) that produces, in this order: one big
 // addition; scattered deletions that make leaves climb (every 4th leaf of the right half, then the
-// partners of some of them so that whole groups vanish and survivors climb two rows); a block that
-// empties the whole left half (n/2 targets) and adds a few leaves; a block that deletes climbed
+// partners of some of them so that whole groups vanish and survivors climb two rows); two blocks that
+// empty the first and the second quarter (n/4 targets each; afterwards the whole left half is gone); a block that deletes climbed
 // leaves together with row-0 twins of the same block and crosses the next power of two with its
 // additions; a final block deleting half of what is left.
 func scaleHistory(n int) []Block {
@@ -30,10 +30,15 @@ func scaleHistory(n int) []Block {
 	}
 	bs = append(bs, Block{Del: d, Add: 0, DM: "scale-climb2", AM: "0"})
 	d = nil
-	for s := n/2 - 1; s >= 0; s-- { // whole left half, descending order
+	for s := n/4 - 1; s >= 0; s-- { // the first quarter (a left child of a left child), descending order
 		d = append(d, s)
 	}
-	bs = append(bs, Block{Del: d, Add: 5, Rem: []int{4}, DM: "scale-half", AM: "5"})
+	bs = append(bs, Block{Del: d, Add: 2, DM: "scale-quarter", AM: "2"})
+	d = nil
+	for s := n / 4; s < n/2; s++ { // the second quarter: the left half is now empty
+		d = append(d, s)
+	}
+	bs = append(bs, Block{Del: d, Add: 5, Rem: []int{4}, DM: "scale-quarter2", AM: "5"})
 	d = nil
 	for s := n / 2; s < n; s += 16 {
 		d = append(d, s) // climbed (its twin s+1 went in block 2)
@@ -174,9 +179,9 @@ func preScaleC06(t *testing.T) {
 				c.Steps = append(c.Steps, C06Step{Op: "undo"})
 			}
 			// another branch from the state after block 2: different leaves, the whole left half again
-			alt := bs[3]
+			alt := bs[4]
 			alt.Salt, alt.Add, alt.Rem = 1, 9, []int{0, 8}
-			c.Steps = append(c.Steps, C06Step{Op: "block", B: &alt}, C06Step{Op: "undo"}, C06Step{Op: "undo"}, C06Step{Op: "undo"}, C06Step{Op: "undo"})
+			c.Steps = append(c.Steps, C06Step{Op: "block", B: &alt}, C06Step{Op: "undo"}, C06Step{Op: "undo"}, C06Step{Op: "undo"}, C06Step{Op: "undo"}, C06Step{Op: "undo"})
 			res := safeRun(runC06, c)
 			done++
 			if res.Err != nil {
@@ -187,4 +192,144 @@ func preScaleC06(t *testing.T) {
 	}
 	rec.bulk(done, done)
 	rec.extra("scale_probes", fmt.Sprintf("deterministic history on %v leaves (blocks with up to n/2 targets incl. climbed leaves), undone to depth 3, another branch applied and everything undone to the empty forest, on 2 configurations each", sizes))
+}
+
+// scaleHistoryRem is scaleHistory with a sparse set of leaves of the first block remembered (every
+// (n/16)-th leaf plus the first three), so that a light client / partial forest holds a SMALL cache
+// next to blocks with thousands of targets.
+func scaleHistoryRem(n int) []Block {
+	bs := scaleHistory(n)
+	for i := 0; i < n; i += n / 16 {
+		bs[0].Rem = append(bs[0].Rem, i)
+		if i+9 < n {
+			bs[0].Rem = append(bs[0].Rem, i+9)
+		}
+	}
+	bs[0].Rem = append(bs[0].Rem, n-1)
+	return bs
+}
+
+func scaleUnits(sizes []int, t *testing.T, run func(n int) (*Result, []byte)) int {
+	if *flagNoExh {
+		return 0
+	}
+	shard, nshards := shardOf()
+	done := 0
+	for i, n := range sizes {
+		if i%nshards != shard {
+			continue
+		}
+		res, cj := run(n)
+		done++
+		if res.Err != nil {
+			rec.fail(res.Err.Error(), cj, false)
+			t.Fatalf("scale probe (n=%d): %v", n, res.Err)
+		}
+	}
+	rec.bulk(done, done)
+	return done
+}
+
+func probeSizes(quick, full []int) []int {
+	if thorough() {
+		return full
+	}
+	return quick
+}
+
+// preScaleC07: the remembered scale history through Stump.Update / Proof.Update, plain and embedded.
+func preScaleC07(t *testing.T) {
+	sizes := probeSizes([]int{1 << 9, 1 << 12}, []int{1 << 10, 1 << 12, 1 << 14})
+	scaleUnits(sizes, t, func(n int) (*Result, []byte) {
+		c := C07Case{Blocks: scaleHistoryRem(n), High: 1 << 40}
+		return safeRun(runC07, c), caseJSON(c)
+	})
+	rec.extra("scale_probes", fmt.Sprintf("deterministic history on %v leaves with a sparse remembered set (blocks of up to n/2 deletions), also embedded behind 2^40 opaque leaves", sizes))
+}
+
+// preScaleC08: the same, then undone block by block (depth 3), another branch, undone to the start.
+func preScaleC08(t *testing.T) {
+	sizes := probeSizes([]int{1 << 9, 1 << 12}, []int{1 << 10, 1 << 12, 1 << 14})
+	scaleUnits(sizes, t, func(n int) (*Result, []byte) {
+		bs := scaleHistoryRem(n)
+		c := C08Case{High: 1 << 33}
+		for i := range bs {
+			b := bs[i]
+			c.Steps = append(c.Steps, C06Step{Op: "block", B: &b})
+		}
+		for k := 0; k < 3; k++ {
+			c.Steps = append(c.Steps, C06Step{Op: "undo"})
+		}
+		alt := bs[4]
+		alt.Salt, alt.Add, alt.Rem = 1, 9, []int{0, 8}
+		c.Steps = append(c.Steps, C06Step{Op: "block", B: &alt}, C06Step{Op: "undo"}, C06Step{Op: "undo"}, C06Step{Op: "undo"}, C06Step{Op: "undo"}, C06Step{Op: "undo"})
+		return safeRun(runC08, c), caseJSON(c)
+	})
+	rec.extra("scale_probes", fmt.Sprintf("deterministic history on %v leaves with a sparse cached set, undone to depth 3, another branch, undone to the empty accumulator; also embedded behind 2^33 opaque leaves", sizes))
+}
+
+// preScaleC10: look-ups on a large forest (tens of thousands of tracked leaves in the thorough tier).
+func preScaleC10(t *testing.T) {
+	sizes := probeSizes([]int{1 << 9, 1 << 11}, []int{1 << 10, 1 << 13, 1 << 15})
+	scaleUnits(sizes, t, func(n int) (*Result, []byte) {
+		bs := scaleHistoryRem(n)
+		c := C10Case{Cfgs: []Cfg{{Kind: "pollard"}, {Kind: "map", Full: true, Rows: 63}, {Kind: "map", Rows: 0}}}
+		for i := range bs {
+			b := bs[i]
+			c.Steps = append(c.Steps, C10Step{Op: "block", B: &b})
+			if i == 2 {
+				c.Steps = append(c.Steps, C10Step{Op: "restore"})
+			}
+		}
+		c.Steps = append(c.Steps, C10Step{Op: "undo"}, C10Step{Op: "undo"})
+		return safeRun(runC10, c), caseJSON(c)
+	})
+	rec.extra("scale_probes", fmt.Sprintf("deterministic history on %v leaves with restore and two undos; every look-up probed after every step", sizes))
+}
+
+// preScaleC14: proof algebra on many targets and many trees.
+func preScaleC14(t *testing.T) {
+	sizes := probeSizes([]int{1022, 3000}, []int{1022, 3000, 9000})
+	scaleUnits(sizes, t, func(n int) (*Result, []byte) {
+		c := c14Probe(n)
+		return safeRun(runC14, c), caseJSON(c)
+	})
+	rec.extra("scale_probes", fmt.Sprintf("deterministic states on %v leaves (9+ trees): 20 old targets combined with / completed by up to 1200 newer ones", sizes))
+}
+
+func c14Probe(n int) C14Case {
+		c := C14Case{Rows: 63, Rel: "scale"}
+		b0 := Block{Add: n, Rem: []int{0, 5, n - 2}}
+		c.Steps = append(c.Steps, WStep{Op: "block", B: &b0})
+		var d []int
+		for s := 3; s < n/2; s += 7 {
+			d = append(d, s)
+		}
+		b1 := Block{Del: d, Add: 0}
+		c.Steps = append(c.Steps, WStep{Op: "block", B: &b1})
+		dead := map[int]bool{}
+		for _, s := range d {
+			dead[s] = true
+		}
+		// A: a few old leaves plus the last-but-one leaf; B: many newer leaves plus the last leaf (the
+		// two proofs meet only in the smallest trees)
+		for s := 5; len(c.A) < 20 && s < n/2; s += 11 {
+			if !dead[s] && !dead[s^1] { // still on row 0: every held position lies before the wanted ones
+				c.A = append(c.A, s)
+			}
+		}
+		if n == 1022 {
+			c.A = append(c.A, n-2)
+		}
+		step := 1
+		if n == 1022 {
+			step = 2
+		}
+		for s := n - 1; len(c.B) < 1300 && s > n/2; s -= step {
+			c.B = append(c.B, s)
+		}
+		// restriction: a proof of ~1500 leaves cut down to ~1100 of them in another order
+		c.Wants = append([]int(nil), c.A...)
+		c.Req = []int{1, n - 3}
+		return c
 }
